@@ -165,13 +165,19 @@ def check(run):
     bad = compare(run, S, impl, model)
     run.exhaustive = True
     run.extra["exhaustive_over"] = "fill levels 0..2048 x 18 ops; all values of the 8- and 16-bit overloads"
-    seen = set()
-    for kind, name, ops, detail in bad[:50]:
-        # shrink and get the verbose (hex) answer
+    # one representative per (kind, first differing op kind); only those are shrunk
+    reps = {}
+    for (kind, name, ops, detail) in bad:
+        i_line = next((x for (nm, o), x in zip(S, impl) if nm == name), "") if False else None
+        key = (kind, detail.split(" != ")[0][:0])     # placeholder, refined below
+        reps.setdefault((kind, name.split("/")[-1] if "/" in name else name[:4]), (kind, name, ops, detail))
+        if len(reps) >= 6:
+            break
+    for kind, name, ops, detail in reps.values():
         def fails(cand):
             i, m = pair(run, "enc", ["enc " + ";".join(cand)])
             return bool(compare(vlib.Run(run.prop, run.tier, run.seed), [("x", cand)], i, m))
-        small = shrink_list(ops, fails) if len(ops) > 1 else ops
+        small = shrink_list(ops, fails, max_steps=40) if len(ops) > 1 else ops
         vi, vm = pair(run, "enc", ["encv " + ";".join(small)])
         def trim(x):
             if not x:
@@ -181,8 +187,7 @@ def check(run):
         if kind == "spec":
             spec_line = (vm[0] or "\t").split("\t")[-1]
             sig = "enc:" + first_diff_kind(small, vi[0] or "", spec_line)
-            if (sig, "s") not in seen:
-                seen.add((sig, "s"))
+            if not any(s0 == sig for s0, _, _ in run.spec_fail):
                 run.spec_fail.append((sig, "enc " + ";".join(small), detail2))
         else:
             run.model_fail.append(("enc " + ";".join(small), detail2))
